@@ -551,6 +551,25 @@ fn process_fn_body(
 ) {
     rw.fired.clear();
     rw.fresh = 0; // fresh names are numbered per function, so an edit elsewhere cannot shift them
+    // R7: argument-position `impl Trait` is an anonymous generic parameter: name it
+    let mut k = 0;
+    let mut new_params: Vec<GenericParam> = Vec::new();
+    for arg in sig.inputs.iter_mut() {
+        if let FnArg::Typed(pt) = arg {
+            if let Type::ImplTrait(it) = &*pt.ty {
+                let id = Ident::new(&format!("VxI{}", k), Span::call_site());
+                k += 1;
+                let bounds = &it.bounds;
+                new_params.push(parse_quote!(#id: #bounds));
+                *pt.ty = parse_quote!(#id);
+                rw.fired.push("R7:name-impl-trait-arg".into());
+            }
+        }
+    }
+    for p in new_params {
+        sig.generics.params.push(p);
+    }
+    let r7 = rw.fired.clone();
     rw.visit_signature_mut(sig);
     rw.visit_block_mut(block);
     let mut cf = ClosureFinder { found: false };
@@ -559,6 +578,7 @@ fn process_fn_body(
         die(&format!("{}: a closure survives the rewrite rules", key));
     }
     let mut fired = rw.fired.clone();
+    let _ = r7;
     fired.sort();
     let mut counts: BTreeMap<String, usize> = BTreeMap::new();
     for f in fired {
